@@ -374,6 +374,7 @@ class Raw:
         self.sock = None
         self.tls = False
         self.finished = False
+        self.thread = None            # its request handler thread in the listener, where known
         if fin != 'complete' and STAGE_PARTS[stage] < 3:
             ctl.truncated.add(iid)
 
@@ -993,7 +994,7 @@ def run_grid_case(ctl, ports, case, rnd):
 def run_inflight_case(ctl, ports, case, rnd):
     """stop() from another thread while raw senders are held in the stages of case[2]; see the module docstring."""
     _, proto, stages, fins, cbmode, order, bound, cbset, variant = case
-    deep = bool(variant & 1)
+    deep = bool(variant & 1)          # let nothing go on before stop() provably waits (else: already in shutdown())
     rev = bool(variant & 2)
     ctl.perturb = bool(variant & 4)
     sys.setswitchinterval(1e-4 if (variant & 8) else 0.005)
@@ -1007,22 +1008,36 @@ def run_inflight_case(ctl, ports, case, rnd):
     ctl.go.set()
     raws = []
     h = None
+    held_threads = set()              # request handler threads of the held senders
+    https_a = [False]                 # a held connection keeps the https server thread in the TLS handshake
 
-    def stage_all(which):
-        n = 0
-        for r in raws:
-            if r.stage in which:
-                try:
-                    r.open()
-                    r.advance()
-                    n += 1
-                except Exception as exc:      # pylint: disable=broad-except
-                    r.close()
-                    ctl.status[r.iid] = ('noresp', type(exc).__name__)
-                    ctl.resp[r.iid] = ctl.tick()
-                    r.finished = True
-                    ctl.violation('in-flight-stage-not-reached', stage=r.stage, observed=repr(exc)[:200])
-        return n
+    def not_reached(stage, observed):
+        ctl.violation('in-flight-stage-not-reached', stage=stage, observed=observed)
+
+    def stage_one(r):
+        try:
+            r.open()
+            r.advance()
+            return True
+        except Exception as exc:      # pylint: disable=broad-except
+            r.close()
+            ctl.status[r.iid] = ('noresp', type(exc).__name__)
+            ctl.resp[r.iid] = ctl.tick()
+            r.finished = True
+            not_reached(r.stage, repr(exc)[:200])
+            return False
+
+    def new_handler(r):
+        """The connection just opened has got its handler thread (which stays: it waits for input or the gate)."""
+        t_end = time.monotonic() + 4
+        while time.monotonic() < t_end:
+            new = set(ses.handler_threads()) - held_threads
+            if new:
+                held_threads.update(new)
+                r.thread = new.pop()
+                return
+            time.sleep(0.001)
+        not_reached(r.stage, 'no handler thread')
 
     def primer_done():
         return sum(1 for e in list(ctl.log) if e[0] == 'exit' and e[2] == '1.s0.i0') >= len(cbset)
@@ -1033,6 +1048,28 @@ def run_inflight_case(ctl, ports, case, rnd):
             t_end = time.monotonic() + 3
             while not primer_done() and time.monotonic() < t_end:
                 time.sleep(0.001)
+
+    def something_held():
+        return https_a[0] or any(t.is_alive() for t in held_threads)
+
+    def await_stop(first):
+        """Watch stop() until it has returned or provably waits for something the harness holds."""
+        t_end = time.monotonic() + 4
+        while time.monotonic() < t_end:
+            if h['done'].is_set():
+                return 'returned'     # if anything is still held, the census in the stopper thread has seen it
+            w = ses.stop_waits_for(h, held_threads, https_a[0])
+            if w in ('handler', 'handshake') or (w == 'shutdown' and first and not deep):
+                return w
+            if w == 'delivery' and cbmode == 'held' and not ctl.release.is_set():
+                if not something_held():
+                    return w          # nothing but the held callback (and what is queued behind it) is left
+                release_callback()    # stop() went past the held handlers and waits for the callback: let it
+            time.sleep(0.001)
+        ctl.violation('in-flight-stop-neither-returns-nor-waits', stack=stack_names(h['thread'])[:8],
+                      held=[(t.name, t.is_alive()) for t in held_threads],
+                      threads=[(t.name, stack_names(t)[:6]) for t in ses.listener_threads()])
+        return 'unknown'
 
     try:
         nprim = {'none': 0, 'held': 1, 'slow': 2}[cbmode]
@@ -1046,80 +1083,57 @@ def run_inflight_case(ctl, ports, case, rnd):
             ctl.order[(1, k + 1)] = [iid]
             raws.append(Raw(ctl, ses.port, iid, k, stg, fin))
         ses.wait_handlers(lambda n: n == 0)       # the handlers of the answered earlier requests have ended
-        held_threads = set()
+        for stg in 'dbcea':           # a last: over https it blocks the server thread for everybody else
+            for r in raws:
+                if r.stage != stg:
+                    continue
+                if stg == 'd':
+                    # complete request, answered into the socket buffer (the handler got to send_response() and
+                    # ended), the indication queued behind the held callback
+                    seen = len(ctl.resp_records)
+                    if stage_one(r):
+                        t_end = time.monotonic() + 4
+                        while len(ctl.resp_records) <= seen and time.monotonic() < t_end:
+                            time.sleep(0.001)
+                        if len(ctl.resp_records) <= seen or not ses.wait_handlers(lambda n: n == len(held_threads)):
+                            not_reached('d', 'handler does not answer and end')
+                elif stg in 'bc':     # the handler waits for the (rest of the) body
+                    if stage_one(r):
+                        new_handler(r)
+                elif stg == 'e':      # the handler is held inside send_response()
+                    ctl.resp_armed = True
+                    if stage_one(r):
+                        if not ctl.resp_held.acquire(timeout=5):
+                            not_reached('e', 'handler not at the log gate')
+                        new_handler(r)
+                    ctl.resp_armed = False
+                elif stage_one(r):    # a: connection only
+                    if proto == 'http':
+                        new_handler(r)
+                    elif ses.server_thread_in_handshake():
+                        https_a[0] = True
+                    else:
+                        not_reached('a', 'server thread not in handshake')
 
-        def new_handlers(n, stage):
-            """The n connections just opened have got their handler threads (which stay: they wait for input)."""
-            t_end = time.monotonic() + 4
-            while time.monotonic() < t_end:
-                new = set(ses.handler_threads()) - held_threads
-                if len(new) >= n:
-                    held_threads.update(new)
-                    return
-                time.sleep(0.001)
-            ctl.violation('in-flight-stage-not-reached', stage=stage, observed='no handler thread')
-
-        # d: complete request, answered into the socket buffer (the handler got to send_response(), then ended),
-        # queued behind the held callback
-        seen = len(ctl.resp_records)
-        nd = stage_all('d')
-        if nd:
-            t_end = time.monotonic() + 4
-            while len(ctl.resp_records) < seen + nd and time.monotonic() < t_end:
-                time.sleep(0.001)
-            if len(ctl.resp_records) < seen + nd or not ses.wait_handlers(lambda n: n == 0):
-                ctl.violation('in-flight-stage-not-reached', stage='d', observed='handler does not answer and end')
-        # b, c: handlers wait for the (rest of the) body
-        nbc = stage_all('bc')
-        if nbc:
-            new_handlers(nbc, 'bc')
-        # e: handlers held inside send_response()
-        if 'e' in stages:
-            ctl.resp_armed = True
-            ne = stage_all('e')
-            for _ in range(ne):
-                if not ctl.resp_held.acquire(timeout=5):
-                    ctl.violation('in-flight-stage-not-reached', stage='e', observed='handler not at the log gate')
-            ctl.resp_armed = False
-            new_handlers(ne, 'e')
-        # a: connection only (https: the server thread itself waits in the TLS handshake, so these come last)
-        na = stage_all('a')
-        if na:
-            if proto == 'http':
-                new_handlers(na, 'a')
-            elif not ses.server_thread_in_handshake():
-                ctl.violation('in-flight-stage-not-reached', stage='a', observed='server thread not in handshake')
-        https_a = proto == 'https' and na > 0
-
-        h = ses.stop_async(poke=deep and not https_a)
-        # watch stop() until it has returned or provably waits for something the harness holds
-        where = 'unknown'
-        t_end = time.monotonic() + 4
-        while time.monotonic() < t_end:
-            if h['done'].is_set():
-                where = 'returned'    # with requests in flight / the callback held: the census decides
-                break
-            w = ses.stop_waits_for(h, held_threads, https_a)
-            if w in ('handler', 'handshake') or (w == 'shutdown' and not deep):
-                where = w
-                break
-            if w == 'delivery' and cbmode == 'held' and not ctl.release.is_set():
-                if not any(t.is_alive() for t in held_threads) and not https_a:
-                    where = w         # nothing but the held callback (and what is queued behind it) is left
-                    break
-                release_callback()    # stop() went past the held handlers and waits for the callback: let it
-            time.sleep(0.001)
-        if where == 'unknown':
-            ctl.violation('in-flight-stop-neither-returns-nor-waits', stack=stack_names(h['thread'])[:8],
-                          held=[(t.name, t.is_alive()) for t in held_threads],
-                          threads=[(t.name, stack_names(t)[:6]) for t in ses.listener_threads()])
+        h = ses.stop_async(poke=deep and not https_a[0])
+        await_stop(True)
         ctl.set_phase('finish')
         if order == 'cb-first':
             release_callback()
-        ctl.resp_release.set()
+        ctl.resp_release.set()        # the handlers of stage e write their responses and end
         for r in (reversed(raws) if rev else raws):
-            if not r.finished:
-                r.finish()
+            if r.finished:
+                continue
+            r.finish()
+            if r.thread is not None:
+                r.thread.join(4)
+                if r.thread.is_alive():
+                    ctl.violation('in-flight-handler-outlives-its-request', stage=r.stage, end=r.fin,
+                                  stack=stack_names(r.thread)[:6])
+            elif r.stage == 'a' and proto == 'https':
+                https_a[0] = False
+            if something_held() and not h['done'].is_set():
+                await_stop(False)     # the other senders are still held: stop() must go on waiting for them
         if order != 'cb-first' and not ctl.release.is_set():
             if cbmode == 'held':
                 # everything is answered; stop() has to wait for the held callback (queue not empty, or join of
